@@ -98,6 +98,8 @@ def targeted_calls(ctx):
     import odak.learn.perception as LP
     rng = ctx.rng
     calls = []
+    import random as _random0
+    torch.manual_seed(4321); np.random.seed(4321); _random0.seed(4321)      # arguments drawn while the registry is built are the same in every process
 
     def add(name, f):
         calls.append((name, f))
@@ -228,6 +230,9 @@ def targeted_calls(ctx):
     from ..lib.mutation_probe import snap, same
     differing = []
     kept_results = []           # (name, result object of the first call, its snapshot): must still hold at the very end, after every other call
+    reversed_run = bool(os.environ.get('C20_REVERSED_DUMP'))
+    if reversed_run:
+        calls = calls[::-1]     # the second process: the same registry, last call first
     for name, f in calls:
         first = None
         for rep in range(2):         # a second call with the same arguments must see the same arguments ...
@@ -243,6 +248,11 @@ def targeted_calls(ctx):
                 kept_results.append((name, robj, r, f))
             elif first is not None and not same(first, r):
                 differing.append(name)
+    if reversed_run:
+        torch.save({name: r for name, _, r, _ in kept_results}, os.environ['C20_REVERSED_DUMP'])
+        shutil.rmtree(tmpd, ignore_errors=True)
+        return len(calls), ok
+    ctx._first_results = {name: r for name, _, r, _ in kept_results}
     if probe_obj is not None:
         probe_obj.identity_calls.clear()        # the repeat below runs under the same probe (same re-seeding of random functions) as the first call
     # at the very end, after the calls of every OTHER function: (a) the objects returned by the first calls still hold what they held (a later call of another
@@ -293,6 +303,34 @@ def run(ctx):
     finally:
         probe.uninstall()
     ctx.extra['targeted_calls'] = {'registered': n_calls, 'executions_ok': ok}
+    # the same registry in a second process, last call first: a registered call returns what it returned in this process, where other calls preceded
+    # it (state that one function leaves behind for another one -- a shared cache keyed too coarsely, a mutated default -- shows up in one of the orders)
+    import subprocess
+    from ..lib.mutation_probe import close as _close
+    dump = os.path.join(tempfile.mkdtemp(prefix='odakverif_c20r_'), 'reversed.pt')
+    env = dict(os.environ, C20_REVERSED_DUMP=dump, VERIF_SEED=str(ctx.seed))
+    env.pop('VERIF_COV_FILE', None)
+    try:
+        pr = subprocess.run([sys.executable, '-m', 'harness.props.C20'], cwd=os.path.dirname(os.path.dirname(os.path.dirname(os.path.abspath(__file__)))),
+                            env=env, capture_output=True, text=True, timeout=1500)
+        other = torch.load(dump, weights_only=False) if os.path.exists(dump) else None
+    except Exception as e:
+        pr, other = None, None
+        ctx.note('reversed-order run did not finish: %r' % (e,))
+    if other is None:
+        ctx.note('reversed-order run produced no results%s' % ((': ' + pr.stderr[-300:]) if pr is not None else ''))
+    else:
+        mine = getattr(ctx, '_first_results', {})
+        ctx.extra['registry_calls_compared_between_orders'] = len(set(mine) & set(other))
+        for nm in sorted(set(mine) & set(other)):
+            if nm in ORDER_EXEMPT:
+                continue
+            if not _close(mine[nm], other[nm], rtol=1e-4):
+                ctx.violation('%s: the registered call returns another result in a process where the registry runs in reverse order (what the call returns '
+                              'depends on which other library calls were made before it)' % nm,
+                              {'call': nm, 'how': 'run ./check C20; the registry is executed in a second process last-call-first and the results are compared'},
+                              {'fn': nm, 'what': 'order_of_calls_between_processes'})
+    shutil.rmtree(os.path.dirname(dump), ignore_errors=True)
     ctx.extra['identity_probed_callables'] = len(probe.identity_calls)
     for q, what in sorted(probe.identity_dependent.items()):
         ctx.violation('%s: %s (hidden state keyed on the identity of an argument)' % (q, what),
@@ -351,3 +389,25 @@ def run(ctx):
 def replay(ctx, rep):
     print('C20 replays are re-observations: run ./check C20 (the probe reports %s)' % rep.get('what'))
     return True
+
+
+ORDER_EXEMPT = set()          # registered calls whose result legitimately depends on earlier calls (none)
+
+
+if __name__ == '__main__' and os.environ.get('C20_REVERSED_DUMP'):
+    # second process of the order-of-calls comparison: same probe, same registry, reversed order; writes the snapshots of the first results
+    from ..lib import core as _core
+    from ..lib.mutation_probe import Probe as _Probe
+    _repo = os.environ.get('ODAK_REPO', '/repo')
+    sys.path.insert(0, _repo)
+    import contextlib as _cl
+    import io as _io
+    _ctx = _core.Ctx('C20', 'quick', int(os.environ.get('VERIF_SEED', '0') or 0))
+    _p = _Probe()
+    _ctx._probe = _p
+    _p.install()
+    try:
+        with _cl.redirect_stdout(_io.StringIO()), _cl.redirect_stderr(_io.StringIO()):
+            targeted_calls(_ctx)
+    finally:
+        _p.uninstall()
